@@ -93,6 +93,42 @@ class Corpus(object):
                     check.bump(k, c)
                 tid += 1
             sidx += 1
+        if corpus and gen_kwargs.get('shifts'):
+            self.add_handmade()
+
+    def add_handmade(self):
+        """descriptor sets that only hand-written Python can express (several limited / dynamic arrays on one counter)"""
+        import prophy
+        u8 = {'k': 'prim', 'p': 'u8'}
+        byte = {'k': 'byte'}
+
+        class HmLimShared(prophy.with_metaclass(prophy.struct_generator, prophy.struct)):
+            _descriptor = [('n', prophy.u8), ('b', prophy.bytes(size=2, bound='n')), ('a', prophy.bytes(size=1, bound='n'))]
+
+        class HmDynLim(prophy.with_metaclass(prophy.struct_generator, prophy.struct)):
+            _descriptor = [('n', prophy.u8), ('b', prophy.bytes(bound='n')), ('a', prophy.bytes(size=1, bound='n')), ('t', prophy.u16)]
+
+        class HmArrLim(prophy.with_metaclass(prophy.struct_generator, prophy.struct)):
+            _descriptor = [('n', prophy.u8), ('x', prophy.array(prophy.u16, bound='n')), ('y', prophy.array(prophy.u8, bound='n', size=3))]
+        made = [
+            (HmLimShared, {'k': 'struct', 'name': 'HmLimShared', 'ms': [
+                {'n': 'n', 't': u8, 'mk': 'plain'}, {'n': 'b', 't': byte, 'mk': 'limited', 'sizer': 'n', 'size': 2},
+                {'n': 'a', 't': byte, 'mk': 'limited', 'sizer': 'n', 'size': 1}]}),
+            (HmDynLim, {'k': 'struct', 'name': 'HmDynLim', 'ms': [
+                {'n': 'n', 't': u8, 'mk': 'plain'}, {'n': 'b', 't': byte, 'mk': 'dyn', 'sizer': 'n', 'shift': 0},
+                {'n': 'a', 't': byte, 'mk': 'limited', 'sizer': 'n', 'size': 1}, {'n': 't', 't': {'k': 'prim', 'p': 'u16'}, 'mk': 'plain'}]}),
+            (HmArrLim, {'k': 'struct', 'name': 'HmArrLim', 'ms': [
+                {'n': 'n', 't': u8, 'mk': 'plain'}, {'n': 'x', 't': {'k': 'prim', 'p': 'u16'}, 'mk': 'dyn', 'sizer': 'n', 'shift': 0},
+                {'n': 'y', 't': u8, 'mk': 'limited', 'sizer': 'n', 'size': 3}]}),
+        ]
+        import types as _types
+        self.mods[-1] = _types.SimpleNamespace(**{cls.__name__: cls for cls, _ in made})
+        self.nodes[-1] = []
+        for cls, tree in made:
+            text = '# hand-written descriptor\nclass %s: _descriptor = %s' % (cls.__name__, [(n, getattr(t, '__name__', str(t))) for n, t in
+                                                                                         [(f.name, f.type) for f in cls._descriptor]])
+            self.types.append(Case(-1, text, cls.__name__, tree, cls, len(self.types)))
+            self.check.bump('handmade-descriptor')
 
     def deft_requests(self):
         return [{'op': 'deft', 'id': c.tid, 't': c.tree} for c in self.types]
